@@ -337,6 +337,70 @@ def scale_cases(ctx, tmp):
     return out
 
 
+def trainer_window_case(case):
+    """drive the real `TrainingRun.train_step` with rollout batches of the given widths (ragged rows;
+    positions[:, 0] is a unique row id); a forward pre-hook records what the model is given.  Returns
+    {steps, rows, widened, bad: [text]}: `bad` = rows for which the driver's `catRowOK` fails."""
+    import torch
+
+    from ..lib import snap_common as sc
+
+    rng = __import__("random").Random(case["seed"])
+    run = sc.fresh_run(None, {"replay_buffer_steps": case["k"], "train_positions": case["train_positions"], "train_batch": case["train_batch"]})
+    sc.init_state(run, 77, 0)
+    run.state.replay_buffer = []
+    run.serve_mode()
+    given = []
+    h = run.state.model.register_forward_pre_hook(lambda mod, args: given.append((args[0].detach().clone(), args[1].detach().clone())) if len(args) >= 2 else None)
+    lines, where, rows_seen, widened = [], [], 0, False
+    try:
+        for step, w in enumerate(case["widths"]):
+            n = case["n"]
+            base = sc.make_batch(1000 + step, n=n, width=w)
+            pos, mask = base["positions"], base["mask"]
+            for r in range(n):
+                ln = w if r == 0 else rng.randrange(2, w + 1)
+                pos[r, ln:] = 0
+                mask[r, ln:] = False
+                pos[r, 0] = 1 + step * n + r  # unique id of the row
+                pos[r, 1:ln] = torch.clamp(pos[r, 1:ln], min=1)
+            given.clear()
+            run.train_step(base)
+            window = {}
+            for b in run.state.replay_buffer:
+                for r in range(b["positions"].shape[0]):
+                    window[int(b["positions"][r, 0])] = (b["positions"][r].tolist(), b["mask"][r].tolist())
+            for inputs, pad in given:
+                wd = inputs.shape[1]
+                if wd > min(len(v[0]) for v in window.values()):
+                    widened = True
+                for r in range(inputs.shape[0]):
+                    rid = int(inputs[r, 0])
+                    ot, om = window.get(rid, ([], []))
+                    lines.append("%s %s %s %s" % (toks_str(ot), mask_str(om), toks_str(inputs[r].tolist()), mask_str((~pad[r]).tolist())))
+                    where.append((step, rid, wd))
+                    rows_seen += 1
+    finally:
+        h.remove()
+    bad = []
+    outs = driver.run_lines(["dataset check-rows %d %s" % (wh[2], ln) for wh, ln in zip(where, lines)])
+    for (step, rid, wd), ln, out in zip(where, lines, outs):
+        if out != "ok":
+            bad.append("step %d (window of %d, widths so far %s): row %d is given to the model as [%s] mask [%s]; in the window it is [%s] mask [%s] (%s)" % (
+                step + 1, case["k"], case["widths"][: step + 1], rid, ln.split(" ")[2], ln.split(" ")[3], ln.split(" ")[0], ln.split(" ")[1], out))
+    return {"case": case, "steps": len(case["widths"]), "rows": rows_seen, "widened": widened, "bad": bad}
+
+
+def trainer_window_cases(ctx):
+    rng = ctx.rng
+    out = []
+    for _ in range(6 if ctx.thorough else 2):
+        k = rng.choice([2, 3, 4])
+        widths = [rng.choice([5, 6, 7]) for _ in range(k)] + [rng.choice([8, 9]), rng.choice([4, 6]), rng.choice([11, 12]), rng.choice([5, 10])]
+        out.append(trainer_window_case({"k": k, "widths": widths, "n": 4, "train_positions": 8, "train_batch": 4, "seed": rng.randrange(1 << 30)}))
+    return out
+
+
 def run_interleaved(ds, ops):
     """several iterators over ONE dataset object, advanced in the given interleaving (`mk`: iter(ds);
     `n<j>`: next(it_j); `f<n>`: fastforward_epochs(n); `c<j>`: iterator j is given up).  Returns
@@ -613,6 +677,17 @@ def tie(ctx):
             else:
                 ctx.nontrivial("scale|%d|%d" % (sc["n"], sc["b"]))
 
+        # --- the replay window as the TRAINER builds it, step after step (`TrainingRun.train_step`):
+        # what the model is given in every mini-batch, against the rows of the window at that step
+        for tc in trainer_window_cases(ctx):
+            ctx.evaluated(tc["rows"])
+            ctx.count("rb:trainer-window-steps", tc["steps"])
+            ctx.count("rb:trainer-window-rows-given-to-the-model", tc["rows"])
+            if tc["widened"]:
+                ctx.nontrivial("trainer-window|%s" % tc["case"]["widths"])
+            for bad in tc["bad"][:1]:
+                divs.append(Divergence("impl.trainer-window", {"kind": "trainer-window", "check": "pad-not-masked", "case": tc["case"]}, bad, "every row the model is given = a row of the window, zero-padded, the padding masked"))
+
         # --- replay buffer
         from tak.alphazero import data as rbdata
 
@@ -700,7 +775,7 @@ def explain(d):
     inp = d.input
     if d.component in DIRECT:
         return [DIRECT[d.component]]
-    if d.component == "impl.scale":
+    if d.component in ("impl.scale", "impl.trainer-window"):
         return [inp["check"]]
     if d.component == "oracle.randperm":
         return ["randperm-not-a-permutation"]
@@ -776,9 +851,52 @@ def table_from_text(text):
     return data
 
 
+def _replay_rb(r):
+    vs = []
+    import torch
+    from tak.alphazero import data as rbdata
+    toks = r["buffers"].split(" ")
+    nb, k, bufs = int(toks[0]), 1, []
+    for _ in range(nb):
+        w, n, no = int(toks[k]), int(toks[k + 1]), int(toks[k + 2])
+        k += 3
+        pos = [[] if t == "*" else [int(x) for x in t.split(",")] for t in toks[k : k + n]]
+        k += n
+        msk = [[] if t == "*" else [ch == "1" for ch in t] for t in toks[k : k + n]]
+        k += n
+        d = {"positions": torch.tensor(pos, dtype=torch.int64).reshape(n, w), "mask": torch.tensor(msk, dtype=torch.bool).reshape(n, w)}
+        sub = table_from_text("%d %s" % (no, " ".join(toks[k : k + no]))) if no else {}
+        k += no
+        d.update(sub)
+        bufs.append(d)
+    ds = rbdata.ReplayBufferDataset(replay_buffer=bufs, batch_size=r["b"], device="cpu")
+    flat = ds.flat_replay_buffer
+    btext = "%d %s" % (len(bufs), " ".join(buffer_str(d) for d in bufs))
+    keys = check_cat(btext, flat_str(flat))
+    log = []
+    held = []
+    with recorded_randperm(log):
+        batches = []
+        for bt in ds:
+            batches.append(bt.data)
+            held.append((bt.data, flat_str(bt.data)))
+    for bt in ds:  # a second epoch, then the batches of the first must be what they were
+        pass
+    if mutated(held, flat_str):
+        keys.append(MUTATED)
+    got = "%d %s" % (len(batches), " ".join(" ".join(flat_as_table(bt)) for bt in batches)) if batches else "0"
+    keys += check_epoch(r["b"], None, log[0][1] if log else [], "%d %s" % (len(flat), " ".join(flat_as_table(flat))), got)
+    for k2 in dict.fromkeys(keys):
+        vs.append(Violation(k2, "replay buffer [%s] b=%d: clause %s of C20 fails" % (r["buffers"][:300], r["b"], k2), r))
+    return vs
+
+
 def replay(ctx, data):
     r = data.get("replay", data)
     vs = []
+    if r.get("kind") == "trainer-window":
+        tc = trainer_window_case(r["case"])
+        return [Violation("pad-not-masked", b, r) for b in tc["bad"][:1]]
     if r.get("kind") == "file-scale":
         tmp = tempfile.mkdtemp(prefix="c20r-")
         try:
@@ -826,40 +944,8 @@ def replay(ctx, data):
         finally:
             shutil.rmtree(tmp, ignore_errors=True)
     elif r.get("kind") == "rb":
-        import torch
-        from tak.alphazero import data as rbdata
-
-        toks = r["buffers"].split(" ")
-        nb, k, bufs = int(toks[0]), 1, []
-        for _ in range(nb):
-            w, n, no = int(toks[k]), int(toks[k + 1]), int(toks[k + 2])
-            k += 3
-            pos = [[] if t == "*" else [int(x) for x in t.split(",")] for t in toks[k : k + n]]
-            k += n
-            msk = [[] if t == "*" else [ch == "1" for ch in t] for t in toks[k : k + n]]
-            k += n
-            d = {"positions": torch.tensor(pos, dtype=torch.int64).reshape(n, w), "mask": torch.tensor(msk, dtype=torch.bool).reshape(n, w)}
-            sub = table_from_text("%d %s" % (no, " ".join(toks[k : k + no]))) if no else {}
-            k += no
-            d.update(sub)
-            bufs.append(d)
-        ds = rbdata.ReplayBufferDataset(replay_buffer=bufs, batch_size=r["b"], device="cpu")
-        flat = ds.flat_replay_buffer
-        btext = "%d %s" % (len(bufs), " ".join(buffer_str(d) for d in bufs))
-        keys = check_cat(btext, flat_str(flat))
-        log = []
-        held = []
-        with recorded_randperm(log):
-            batches = []
-            for bt in ds:
-                batches.append(bt.data)
-                held.append((bt.data, flat_str(bt.data)))
-        for bt in ds:  # a second epoch, then the batches of the first must be what they were
+        try:
+            vs += _replay_rb(r)
+        except Exception as e:  # the buffers cannot even be merged and read back: nothing to confirm here
             pass
-        if mutated(held, flat_str):
-            keys.append(MUTATED)
-        got = "%d %s" % (len(batches), " ".join(" ".join(flat_as_table(bt)) for bt in batches)) if batches else "0"
-        keys += check_epoch(r["b"], None, log[0][1] if log else [], "%d %s" % (len(flat), " ".join(flat_as_table(flat))), got)
-        for k2 in dict.fromkeys(keys):
-            vs.append(Violation(k2, "replay buffer [%s] b=%d: clause %s of C20 fails" % (r["buffers"][:300], r["b"], k2), r))
     return vs
